@@ -17,7 +17,8 @@ PROPS = {
     "C13": {"level": "exploration", "parts": [part("order", "stack", "TestVerifC13")]},
     "C06": {"level": "exploration", "parts": [
         part("mapchoice", "stack", "TestVerifC06", variant="mapchoice"),
-        part("plain", "stack", "TestVerifC06")]},
+        part("plain", "stack", "TestVerifC06"),
+        part("history", "stack", "TestVerifC06History")]},
     "C07": {"level": "model_checking", "parts": [part("bfs", "stack", "TestVerifC07"), part("streams", "stack", "TestVerifC07")]},
     "C08": {"level": "exploration", "parts": [part("race", "stack", "TestVerifC08")]},
     "C09": {"level": "model_checking", "parts": [
@@ -31,8 +32,12 @@ PROPS = {
     "C11": {"level": "exploration", "parts": [
         part("real", "stack", "TestVerifC11"),
         part("small", "stack", "TestVerifC11", variant="smallbuf-64"),
-        part("cli", "internal", "TestVerifC11CLI", needs_pp=True, shards=1)]},
+        part("cli", "internal", "TestVerifC11CLI", needs_pp=True, shards=1),
+        part("process", "internal", "TestVerifC11Process")]},
     "C16": {"level": "exploration", "parts": [part("console", "internal", "TestVerifC16", needs_pp=True)]},
+    "C14": {"level": "model_checking", "parts": [
+        part("history", "stack", "TestVerifC14"),
+        part("race", "stack", "TestVerifC14", race=True, gomaxprocs=4, shards=8)]},
     "C15": {"level": "exploration", "parts": [part("names", "stack", "TestVerifC15")]},
     "C12": {"level": "exploration", "parts": [part("agg", "stack", "TestVerifC12")]},
 }
